@@ -538,8 +538,10 @@ impl DmlExecutor {
                         let existing =
                             index_btree.get_tuple_at_unchecked(position, &index_schema)?;
 
-                        // If it is deleted we need to un-delete it
-                        if existing.is_deleted() {
+                        // If it is deleted we need to un-delete it. An entry left behind by a
+                        // rolled-back transaction is as good as deleted: nobody can see it.
+                        if existing.is_deleted() || snapshot.is_transaction_aborted(existing.xmin())
+                        {
                             index_btree.update(index_root, index_tuple, index_schema)?;
                         };
 
